@@ -238,6 +238,9 @@ def cut_loop(ex, s, st, ordn, spec, lo, hi, step, elem_of, parallel=False):
         stored.add(nm)
     for nm in spec.get("ghost_assigned", []):
         assigned.add(nm)
+    if any(isinstance(x, (ast.Yield, ast.YieldFrom)) for b in s.body for x in ast.walk(b)) and st.extra.get("ygh"):
+        assigned.add("yc")
+        stored.update(["YLO", "YHI", "YSTAMP", "YRED", "YSTART", "YSTOP", "YN"])
     for nm, ty in (spec.get("locals") or {}).items():
         if nm not in st.env:
             from .verify import parse_type
